@@ -229,6 +229,7 @@ class Interp:
 
     def __init__(self, contracts=None, config=None, models=None):
         from . import models as M
+        from . import dictmodel     # noqa: registers the dict base handler
         self.contracts = contracts or {}       # underlying function object -> Contract
         self.config = config or {}
         self.models = M
@@ -243,6 +244,8 @@ class Interp:
         self.feas_checks = 0
         self.norm_cache = {}
         self.top_locals = None
+        self.ghost_keys = []
+        self.events = []
 
     # ---- path management ------------------------------------------------------------------
 
@@ -254,6 +257,7 @@ class Interp:
             self.pc, self.obls, self.trace, self.prefix, self.notes = [], [], [], prefix, []
             self.frames, self.depth = [], 0
             self.top_locals = None
+            self.events = []
             T.reset_fresh(1000)
             try:
                 kind, val = thunk()
@@ -382,6 +386,12 @@ class Interp:
             if name == '__class__':
                 return v.cls
             raw = self.class_attr(v.cls, name)
+            if '__map' in v.attrs and not isinstance(raw, (types.FunctionType, property, classmethod, staticmethod)):
+                from . import dictmodel as DM
+                if name in DM.DICT_METHODS:
+                    mm = DM.MapMethod(v.attrs['__map'], name)
+                    mm.owner = v
+                    return mm
             if raw is None:
                 raise RaiseSig(ExcVal(AttributeError, (name,)))
             return self.bind_descriptor(raw, v, v.cls, node)
@@ -460,11 +470,22 @@ class Interp:
         if isinstance(f, types.MethodType):
             if in_repo(f.__func__):
                 return self.call(f.__func__, [f.__self__] + list(args), kwargs, node)
+        if self.active is not None:
+            om = self.active.opaque_calls()
+            try:
+                h = om.get(f)
+            except TypeError:
+                h = None
+            if h is not None:
+                return h(self, args, kwargs, node)
         if isinstance(f, types.FunctionType) and in_repo(f):
             con = self.contracts.get(f)
             if con is not None:
                 return self.call_contract(con, f, args, kwargs, node)
             return self.call_real_function(f, args, kwargs, node)
+        if f is dict.__new__ or getattr(f, '__self__', None) is dict and getattr(f, '__name__', '') == '__new__':
+            from .values import SymMap as _SM
+            return Obj(args[0], {'__map': _SM.empty()})
         if isinstance(f, type):
             return self.instantiate(f, args, kwargs, node)
         m = M.lookup(f)
@@ -1033,6 +1054,9 @@ class Interp:
         if isinstance(f, type) and issubclass(f, BaseException):
             return ExcVal(f, ())
         if f is builtins.super:
+            if e.args:
+                a0 = [self.eval(x, fr) for x in e.args]
+                return self.models.make_super2(self, a0[0], a0[1])
             return self.models.make_super(self, fr, e)
         args = []
         for a in e.args:
